@@ -191,6 +191,41 @@ def run(ctx: Ctx) -> None:
         a = r.auto(lm.reflags)
         ctx.ob("R6.5", f"lexer:PlyLexer.{r.name}|not nullable", not a.nullable, msg=f"{r.name} matches the empty string", node=r.node, mod=lex, nontrivial=False)
 
+    # ---------------------------------------------------------------- R6.8
+    # ParsedTypeModifiers.validate(var_ok, meth_ok) is the check behind "specifiers where they are not allowed are rejected".
+    # It is small enough to be decided outright: its source is interpreted (sa/miniexec.py) for every combination of the two
+    # flags and of which modifier groups are present; it must raise exactly when a present group is not allowed - variable
+    # specifiers without var_ok, method specifiers without meth_ok, the shared ones only when neither is allowed.
+    ctx.rule("R6.8", "ParsedTypeModifiers.validate raises exactly for a present, disallowed modifier group (all 32 flag/group combinations)", minimum=1)
+    from ..miniexec import Opaque as _Op, Run as _Run, Tok as _Tok, Unsupported as _Uns
+    ps_mod = ctx.repo.mod("parserstate")
+    vfn = ps_mod.func("ParsedTypeModifiers.validate")
+    vcfg = CFG(vfn)
+    wrong = []
+    unsupported = None
+    import itertools as _it
+    for var_ok, meth_ok, hv, hm, hb in _it.product((False, True), repeat=5):
+        selfobj = {"vars": {"mutable": _Tok("mutable")} if hv else {}, "meths": {"virtual": _Tok("virtual")} if hm else {}, "both": {"static": _Tok("static")} if hb else {}}
+        run = _Run(vcfg, {"self": selfobj, "var_ok": var_ok, "meth_ok": meth_ok, "msg": "m"}, [], lambda c: False,
+                   extern=lambda c, r: (_ for _ in ()).throw(_Uns(norm(c)[:40])) if not (isinstance(c.func, ast.Name) and c.func.id == "CxxParseError") else "CxxParseError")
+        try:
+            run.run()
+        except _Uns as e:
+            unsupported = str(e)
+            break
+        want = (hv and not var_ok) or (hm and not meth_ok) or (hb and not var_ok and not meth_ok)
+        if bool(run.raised) != want:
+            wrong.append((var_ok, meth_ok, [g for g, h in (("variable", hv), ("method", hm), ("shared", hb)) if h], bool(run.raised)))
+    if unsupported:
+        ctx.note(f"ParsedTypeModifiers.validate uses a construct the interpreter does not model ({unsupported}): R6.8 not evaluated")
+        ctx.ob("R6.8", "parserstate:ParsedTypeModifiers.validate|decidable", True, node=vfn, mod=ps_mod, nontrivial=False)
+    else:
+        w = wrong[0] if wrong else None
+        ctx.ob("R6.8", "parserstate:ParsedTypeModifiers.validate|raises exactly for disallowed groups", not wrong,
+               msg=(f"validate(var_ok={w[0]}, meth_ok={w[1]}) with {w[2] or 'no'} specifier group(s) present {'raises' if w[3] else 'does not raise'}: "
+                    + ("a specifier that is not allowed here is silently accepted" if w and not w[3] else "a well-formed declaration is rejected")) if w else "",
+               node=vfn, mod=ps_mod, detail={"combinations": 32, "wrong": len(wrong)})
+
     # ---------------------------------------------------------------- R6.7
     # "unprocessed preprocessor conditionals or defines ... are rejected": a directive can only be rejected if the lexer
     # rule that matches it does not silently drop it; which rule functions may finish without a token is C08's R8.1,
